@@ -61,6 +61,11 @@ def fixed_cases(tier):
         lo, hi = M.repr_range(r)
         out.append(mk(r, [lo, lo + 1, -3, -2, 4, hi], feats=("as_str", "iter", "range", "into", "try_from", "next", "next_back"),
                       modes={"as_str": "table", "iter": "table"}))
+    # 8-bit size matrix (half-full, nearly full and full reprs, gapless and with holes) with table features on
+    from . import C10
+    for c in C10.fixed_cases("quick"):
+        if "spec" in c and c.get("seed") == 9:
+            out.append({"spec": c["spec"], "cfg": c["cfg"], "seed": 9})
     big = 3000
     out.append({"spec": {"repr": "u16", "vis": "pub", "ident": "E", "enum_attrs": [],
                          "variants": [{"ident": "V%d" % i, "disc": None} for i in range(big)]},
